@@ -1,10 +1,17 @@
 //! C05 — signer trust decisions follow the configured trust policy.
 //!
 //! Request lines (see lean/C2paModel/Model/C05.lean):
-//!   C05 trust backend=openssl pass= lines= pems= nsys= nuser= only= cfg= hash= eparse= cparse=
+//!   C05 trust backend=openssl pass= lines= pems= sblk= ublk= only= cfg= tc= hash= eparse= cparse=
 //!             sparse= uparse= eku= sysv= userv=             -> ok:<System|User|EndEntity|NoCheck> | err:<Kind>
-//!   C05 e2e   <C06 facts> t=- now= mode=<trust|profile> sigok=1 + the fields above
+//!   C05 load  lines= pems=                                   -> <ok|err>:<sorted set of loaded hashes>
+//!   C05 e2e   <C06 facts> t=- now= mode=<trust|profile> sigok=1 al=<0|1> + the fields above
 //!                                                            -> <state> S=<codes> F=<codes>
+//!   C05 verify prot=<absent|bad|chain> unprot=… <C06 facts> t=- now= mode=<trust|profile|ignore> sigok= org=
+//!             + the policy/query fields                      -> <ok|err:Kind> S=<codes> F=<codes>
+//!
+//! `sblk`/`ublk`: one character per PEM block of the anchor text (1 = decodable PEM, 0 = a block the
+//! PEM reader rejects), `e` = text without block, `-` = not configured. `pems`: `!` = rejected block.
+//! `cfg` = the built-in EKU list of the starting policy, `tc` = the lines given to `add_valid_ekus`.
 //!
 //! `trust` drives `CertificateTrustPolicy::check_certificate_trust` (public API) on generated
 //! hierarchies; `e2e` signs an asset with the hierarchy's end-entity credential through a custom
@@ -18,7 +25,11 @@ mod certgen;
 #[path = "../credcase.rs"]
 mod credcase;
 
-use c2pa::crypto::cose::CertificateTrustPolicy;
+use std::borrow::Cow;
+
+use c2pa::crypto::cose::{CertificateTrustPolicy, CoseError, TrustAnchorType, Verifier};
+use c2pa::status_tracker::{LogKind, StatusTracker};
+use coset::{cbor::value::Value, iana, CoseSign1Builder, HeaderBuilder, TaggedCborSerializable};
 use certgen::*;
 use credcase::*;
 use ::vh::common::{guarded, main_with, Rng, Run};
@@ -76,6 +87,8 @@ struct Shape {
     expired_level: usize,
     /// the end-entity certificate is signed by the impostor key instead of its issuer's
     wrong_issuer: bool,
+    /// the end-entity subject has no organisation attribute
+    no_org: bool,
 }
 
 fn build_world(ring: &mut KeyRing, rng: &mut Rng, serial: &mut u64, shape: &Shape, t_ref: i64) -> World {
@@ -121,6 +134,9 @@ fn build_world(ring: &mut KeyRing, rng: &mut Rng, serial: &mut u64, shape: &Shap
     let issuer_kind = if depth == 0 { kinds[0] } else { kinds[1] };
     let mut plan = base_plan(*serial, kinds[0], issuer_kind, nb, na);
     plan.spec.subject.1 = names[0].clone();
+    if shape.no_org {
+        plan.spec.subject.0 = String::new();
+    }
     if depth == 0 {
         mutate(&mut plan, "self-signed", t_ref);
     } else {
@@ -242,6 +258,8 @@ enum AllowItem {
     /// the hash of node i with one character removed (43 characters)
     ShortHash(usize),
     Comment,
+    /// a PEM block whose body is not base64: the PEM reader yields `Err`, the loader stops there
+    BadPem,
 }
 
 struct Config {
@@ -251,6 +269,12 @@ struct Config {
     /// a PEM block holding bytes that are not a certificate is appended to this store
     sys_junk: bool,
     user_junk: bool,
+    /// a PEM block the PEM reader rejects is placed before this position of the anchor list
+    /// (the junk block comes last): `add_*_trust_anchors` keeps what precedes it and returns `Err`
+    sys_badpem: Option<usize>,
+    user_badpem: Option<usize>,
+    /// a line that is not an OID is mixed into the EKU configuration text
+    eku_noise: bool,
     allow: Vec<AllowItem>,
     only: bool,
     extra_ekus: Vec<String>,
@@ -275,6 +299,8 @@ fn allow_text(w: &World, items: &[AllowItem]) -> AllowText {
     let mut lines: Vec<String> = vec![];
     let mut pems: Vec<String> = vec![];
     let mut lists_ee = false;
+    // blocks after a rejected PEM block are never reached by the loader
+    let mut pem_loop_alive = true;
     let enc = |flags: &str, t: &str| format!("{}~{}", if flags.is_empty() { "-" } else { flags }, t.replace(' ', "_"));
     for it in items {
         match it {
@@ -296,9 +322,18 @@ fn allow_text(w: &World, items: &[AllowItem]) -> AllowText {
                 }
                 text.push_str(&p);
                 pems.push(b64_sha256(&w.nodes[*i].der));
-                if *i == 0 {
+                if *i == 0 && pem_loop_alive {
                     lists_ee = true;
                 }
+            }
+            AllowItem::BadPem => {
+                for (fl, l) in [("b", "-----BEGIN CERTIFICATE-----"), ("", "@@@@ this is not base64 @@@@"), ("e", "-----END CERTIFICATE-----")] {
+                    lines.push(enc(fl, l));
+                    text.push_str(l);
+                    text.push('\n');
+                }
+                pems.push("!".into());
+                pem_loop_alive = false;
             }
             AllowItem::Hash(i) => {
                 let h = b64_sha256(&w.nodes[*i].der);
@@ -347,12 +382,76 @@ fn allow_text(w: &World, items: &[AllowItem]) -> AllowText {
     }
 }
 
-fn anchors_pem(w: &World, idx: &[usize], junk: bool) -> String {
-    let mut s: String = idx.iter().map(|i| pem("CERTIFICATE", &w.nodes[*i].der)).collect();
-    if junk {
-        s.push_str(&pem("CERTIFICATE", b"this is not a certificate"));
+/// An anchor text and what the loader makes of it, by construction.
+struct AnchorStore {
+    text: String,
+    /// protocol encoding: one character per PEM block, `-` when nothing is configured
+    blocks: String,
+    /// the anchors that end up in the policy (those before the rejected block)
+    effective: Vec<usize>,
+    /// the undecodable-DER block ended up in the policy
+    junk_loaded: bool,
+}
+
+const BAD_PEM_BLOCK: &str = "-----BEGIN CERTIFICATE-----\n@@@@ this is not base64 @@@@\n-----END CERTIFICATE-----\n";
+
+fn anchor_store(w: &World, idx: &[usize], junk: bool, badpem: Option<usize>) -> AnchorStore {
+    let mut text = String::new();
+    let mut blocks = String::new();
+    let mut effective = vec![];
+    let mut alive = true;
+    if badpem.is_some() {
+        // a stand-alone base64 word: the settings validator accepts a text whose PEM blocks do not
+        // all decode as long as some line outside the blocks is base64 (`test_load_trust`)
+        text.push_str("QUJD\n");
     }
-    s
+    for (k, i) in idx.iter().enumerate() {
+        if badpem == Some(k) {
+            text.push_str(BAD_PEM_BLOCK);
+            blocks.push('0');
+            alive = false;
+        }
+        text.push_str(&pem("CERTIFICATE", &w.nodes[*i].der));
+        blocks.push('1');
+        if alive {
+            effective.push(*i);
+        }
+    }
+    if let Some(k) = badpem {
+        if k >= idx.len() {
+            text.push_str(BAD_PEM_BLOCK);
+            blocks.push('0');
+            alive = false;
+        }
+    }
+    if junk {
+        text.push_str(&pem("CERTIFICATE", b"this is not a certificate"));
+        blocks.push('1');
+    }
+    if blocks.is_empty() {
+        blocks.push('-');
+    }
+    AnchorStore { text, blocks, effective, junk_loaded: junk && alive }
+}
+
+/// The text given to `add_valid_ekus` / `trust_config` and its protocol encoding.
+fn eku_text(c: &Config) -> (String, String) {
+    let mut text = String::new();
+    let mut lines: Vec<String> = vec![];
+    if c.eku_noise && !c.extra_ekus.is_empty() {
+        text.push_str("#accepted-purposes\n");
+        lines.push("-~#accepted-purposes".into());
+    }
+    for o in &c.extra_ekus {
+        text.push_str(o);
+        text.push('\n');
+        lines.push(format!("k~{o}"));
+    }
+    if c.eku_noise && !c.extra_ekus.is_empty() {
+        text.push_str("1.2.x.4\n");
+        lines.push("-~1.2.x.4".into());
+    }
+    (text, if lines.is_empty() { "-".into() } else { lines.join("|") })
 }
 
 /// EKU fact of the end-entity certificate in the C06 protocol encoding (`none` when absent).
@@ -380,22 +479,26 @@ fn eku_accepted(w: &World, allowed: &[String]) -> bool {
 }
 
 /// The policy/query fields of a request line.
-fn policy_fields(w: &World, c: &Config, allow: &AllowText, allowed: &[String]) -> (String, bool, bool) {
-    let sysv = c.sys.iter().all(|_| true) && w.chains_to(&c.sys, &c.supplied, c.time);
-    let userv = w.chains_to(&c.user, &c.supplied, c.time);
+/// `builtin` = the EKU list the starting policy carries (empty for `passthrough()`).
+fn policy_fields(w: &World, c: &Config, allow: &AllowText, builtin: &[String]) -> (String, bool, bool) {
+    let sys = anchor_store(w, &c.sys, c.sys_junk, c.sys_badpem);
+    let user = anchor_store(w, &c.user, c.user_junk, c.user_badpem);
+    let sysv = w.chains_to(&sys.effective, &c.supplied, c.time);
+    let userv = w.chains_to(&user.effective, &c.supplied, c.time);
     let s = format!(
-        "backend=openssl pass={} lines={} pems={} nsys={} nuser={} only={} cfg={} hash={} eparse=1 cparse={} sparse={} uparse={} eku={} sysv={} userv={}",
+        "backend=openssl pass={} lines={} pems={} sblk={} ublk={} only={} cfg={} tc={} hash={} eparse=1 cparse={} sparse={} uparse={} eku={} sysv={} userv={}",
         c.passthrough as u8,
         allow.lines,
         allow.pems,
-        c.sys.len() + c.sys_junk as usize,
-        c.user.len() + c.user_junk as usize,
+        sys.blocks,
+        user.blocks,
         c.only as u8,
-        if allowed.is_empty() { "-".to_string() } else { allowed.join(",") },
+        if builtin.is_empty() { "-".to_string() } else { builtin.join(",") },
+        eku_text(c).1,
         b64_sha256(&w.nodes[0].der),
         !c.chain_junk as u8,
-        !c.sys_junk as u8,
-        !c.user_junk as u8,
+        !sys.junk_loaded as u8,
+        !user.junk_loaded as u8,
         eku_fact(w),
         sysv as u8,
         userv as u8
@@ -417,17 +520,20 @@ fn policy_fields(w: &World, c: &Config, allow: &AllowText, allowed: &[String]) -
 
 fn build_ctp(w: &World, c: &Config, allow: &AllowText) -> CertificateTrustPolicy {
     let mut ctp = if c.passthrough { CertificateTrustPolicy::passthrough() } else { CertificateTrustPolicy::default() };
-    if !c.sys.is_empty() || c.sys_junk {
-        ctp.add_trust_anchors(anchors_pem(w, &c.sys, c.sys_junk).as_bytes()).expect("anchors");
+    // errors are ignored the way `Store::from_context` ignores them (`let _v = …`)
+    let sys = anchor_store(w, &c.sys, c.sys_junk, c.sys_badpem);
+    if sys.blocks != "-" {
+        let _ = ctp.add_trust_anchors(sys.text.as_bytes());
     }
-    if !c.user.is_empty() || c.user_junk {
-        ctp.add_user_trust_anchors(anchors_pem(w, &c.user, c.user_junk).as_bytes()).expect("user anchors");
+    let user = anchor_store(w, &c.user, c.user_junk, c.user_badpem);
+    if user.blocks != "-" {
+        let _ = ctp.add_user_trust_anchors(user.text.as_bytes());
     }
     if !allow.text.is_empty() {
-        ctp.add_end_entity_credentials(allow.text.as_bytes()).expect("allow list");
+        let _ = ctp.add_end_entity_credentials(allow.text.as_bytes());
     }
     if !c.extra_ekus.is_empty() {
-        ctp.add_valid_ekus(c.extra_ekus.join("\n").as_bytes());
+        ctp.add_valid_ekus(eku_text(c).0.as_bytes());
     }
     ctp.set_trust_anchors_only(c.only);
     ctp
@@ -435,9 +541,10 @@ fn build_ctp(w: &World, c: &Config, allow: &AllowText) -> CertificateTrustPolicy
 
 fn trust_case(run: &mut Run, w: &World, c: &Config, default_ekus: &[String]) {
     let allow = allow_text(w, &c.allow);
-    let mut allowed: Vec<String> = if c.passthrough { vec![] } else { default_ekus.to_vec() };
+    let builtin: Vec<String> = if c.passthrough { vec![] } else { default_ekus.to_vec() };
+    let mut allowed: Vec<String> = builtin.clone();
     allowed.extend(c.extra_ekus.iter().cloned());
-    let (fields, sysv, userv) = policy_fields(w, c, &allow, &allowed);
+    let (fields, sysv, userv) = policy_fields(w, c, &allow, &builtin);
     let ctp = build_ctp(w, c, &allow);
     let mut chain: Vec<Vec<u8>> = c.supplied.iter().map(|i| w.nodes[*i].der.clone()).collect();
     if c.chain_junk {
@@ -467,7 +574,9 @@ fn trust_case(run: &mut Run, w: &World, c: &Config, default_ekus: &[String]) {
     }
     // the statement, from ground truth: trusted iff allow-listed, or an accepted EKU and a chain
     // to a configured system anchor, or (unless anchors-only) to a user anchor
-    let broken_input = c.chain_junk || c.sys_junk || (c.user_junk && !c.only && !sysv);
+    let sys_junk = anchor_store(w, &c.sys, c.sys_junk, c.sys_badpem).junk_loaded;
+    let user_junk = anchor_store(w, &c.user, c.user_junk, c.user_badpem).junk_loaded;
+    let broken_input = c.chain_junk || sys_junk || (user_junk && !c.only && !sysv);
     let chain_trust = eku_accepted(w, &allowed) && (sysv || (!c.only && userv));
     let expect_trusted = c.passthrough || allow.lists_ee || (chain_trust && !broken_input);
     let got_trusted = reply.starts_with("ok:");
@@ -504,7 +613,10 @@ fn e2e_case(run: &mut Run, ring: &mut KeyRing, src: &[u8], w: &World, c: &Config
     allowed.extend(c.extra_ekus.iter().cloned());
     // no time stamp end to end: OpenSSL is told not to check times
     let c_time_none = Config { time: None, passthrough: false, only: false, chain_junk: false, ..clone_config(c) };
-    let (fields, sysv, userv) = policy_fields(w, &c_time_none, &allow, &allowed);
+    let c = &c_time_none;
+    let (fields, sysv, userv) = policy_fields(w, &c_time_none, &allow, default_ekus);
+    // settings level: which `trust` settings are present at all
+    let fields = format!("al={} {}", !allow.text.is_empty() as u8, fields);
     let mut chain = vec![w.nodes[0].der.clone()];
     chain.extend(c.supplied.iter().map(|i| w.nodes[*i].der.clone()));
     let key = ring_key(ring, w.ee_kind, 10);
@@ -523,17 +635,19 @@ fn e2e_case(run: &mut Run, ring: &mut KeyRing, src: &[u8], w: &World, c: &Config
         }
     };
     let mut trust = serde_json::Map::new();
-    if !c.sys.is_empty() || c.sys_junk {
-        trust.insert("trust_anchors".into(), anchors_pem(w, &c.sys, c.sys_junk).into());
+    let sys_store = anchor_store(w, &c.sys, c.sys_junk, c.sys_badpem);
+    let user_store = anchor_store(w, &c.user, c.user_junk, c.user_badpem);
+    if sys_store.blocks != "-" {
+        trust.insert("trust_anchors".into(), sys_store.text.clone().into());
     }
-    if !c.user.is_empty() || c.user_junk {
-        trust.insert("user_anchors".into(), anchors_pem(w, &c.user, c.user_junk).into());
+    if user_store.blocks != "-" {
+        trust.insert("user_anchors".into(), user_store.text.clone().into());
     }
     if !allow.text.is_empty() {
         trust.insert("allowed_list".into(), allow.text.clone().into());
     }
     if !c.extra_ekus.is_empty() {
-        trust.insert("trust_config".into(), c.extra_ekus.join("\n").into());
+        trust.insert("trust_config".into(), eku_text(c).0.into());
     }
     let settings = serde_json::json!({"verify": {"verify_trust": verify_trust}, "trust": trust}).to_string();
     let out = match guarded(std::panic::AssertUnwindSafe(|| read_asset(&asset, &settings))) {
@@ -569,7 +683,7 @@ fn e2e_case(run: &mut Run, ring: &mut KeyRing, src: &[u8], w: &World, c: &Config
         }
         return;
     }
-    let broken_input = c.sys_junk || (c.user_junk && !sysv);
+    let broken_input = sys_store.junk_loaded || (user_store.junk_loaded && !sysv);
     let chain_trust = eku_accepted(w, &allowed) && (sysv || userv);
     let expect_trusted = allow.lists_ee || (chain_trust && !broken_input);
     if has_trusted == has_untrusted {
@@ -603,6 +717,304 @@ fn e2e_case(run: &mut Run, ring: &mut KeyRing, src: &[u8], w: &World, c: &Config
     }
 }
 
+/// One call of `add_end_entity_credentials` on an empty policy; the resulting set is observed
+/// by asking the policy about every certificate of the world.
+fn load_case(run: &mut Run, w: &World, items: &[AllowItem]) {
+    let allow = allow_text(w, items);
+    let mut ctp = CertificateTrustPolicy::new();
+    let res = guarded(std::panic::AssertUnwindSafe(|| {
+        let r = ctp.add_end_entity_credentials(allow.text.as_bytes());
+        let mut got: Vec<usize> = vec![];
+        for (i, n) in w.nodes.iter().enumerate() {
+            if matches!(ctp.check_certificate_trust(&[], &n.der, None), Ok(TrustAnchorType::EndEntity)) {
+                got.push(i);
+            }
+        }
+        (r.is_ok(), got)
+    }));
+    let req = format!("C05 load lines={} pems={}", allow.lines, allow.pems);
+    let (ok, got) = match res {
+        Ok(x) => x,
+        Err(p) => {
+            let idx = run.case(req, "panic".into());
+            run.fail(idx, "panic", p);
+            return;
+        }
+    };
+    let mut hashes: Vec<String> = got.iter().map(|i| b64_sha256(&w.nodes[*i].der)).collect();
+    hashes.sort();
+    hashes.dedup();
+    let reply = format!("{}:{}", if ok { "ok" } else { "err" }, if hashes.is_empty() { "-".to_string() } else { hashes.join(",") });
+    run.count(&format!("load_{}", if ok { "ok" } else { "err" }));
+    run.nontrivial(req.clone());
+    let idx = run.case(req, reply.clone());
+    // the statement on the loader, from the configured items alone: nothing enters the allow list
+    // that was not configured as a PEM certificate or a stand-alone hash line; hash lines and the
+    // PEM certificates before the first rejected block do enter it
+    let mut bad_seen = false;
+    let mut must: Vec<usize> = vec![];
+    let mut may: Vec<usize> = vec![];
+    for it in items {
+        match it {
+            AllowItem::Hash(i) => must.push(*i),
+            AllowItem::Pem(i) => {
+                if bad_seen {
+                    may.push(*i)
+                } else {
+                    must.push(*i)
+                }
+            }
+            AllowItem::BadPem => bad_seen = true,
+            _ => {}
+        }
+    }
+    for i in &got {
+        if !must.contains(i) && !may.contains(i) {
+            run.fail(idx, "trusted-against-policy", format!("certificate {i} entered the allow list without being configured: {reply}"));
+        }
+        if may.contains(i) && !must.contains(i) {
+            run.fail(idx, "allow-list-entry-after-rejected-block", format!("certificate {i} follows a rejected PEM block but was loaded: {reply}"));
+        }
+    }
+    for i in &must {
+        if !got.contains(i) {
+            run.fail(idx, "untrusted-against-policy", format!("configured allow-list entry {i} was not loaded: {reply}"));
+        }
+    }
+    if ok == bad_seen {
+        run.fail(idx, "allow-list-load-result", format!("rejected block present={bad_seen} but is_ok={ok}"));
+    }
+}
+
+/// What is put under the `x5chain` label of one COSE header.
+#[derive(Clone, Copy, PartialEq, Debug)]
+enum X5 {
+    Absent,
+    EmptyArray,
+    IntsArray,
+    Text,
+    /// array of the DER blobs
+    Chain,
+    /// the DER blobs interleaved with values that are not byte strings (they are skipped)
+    ChainMixed,
+    /// the end-entity certificate alone as a bare byte string
+    Single,
+}
+
+impl X5 {
+    fn value(self, chain: &[Vec<u8>]) -> Option<Value> {
+        match self {
+            X5::Absent => None,
+            X5::EmptyArray => Some(Value::Array(vec![])),
+            X5::IntsArray => Some(Value::Array(vec![Value::Integer(1.into()), Value::Bool(true)])),
+            X5::Text => Some(Value::Text("x5chain".into())),
+            X5::Chain => Some(Value::Array(chain.iter().map(|d| Value::Bytes(d.clone())).collect())),
+            X5::ChainMixed => {
+                let mut v = vec![Value::Integer(7.into())];
+                for d in chain {
+                    v.push(Value::Bytes(d.clone()));
+                    v.push(Value::Null);
+                }
+                Some(Value::Array(v))
+            }
+            X5::Single => Some(Value::Bytes(chain[0].clone())),
+        }
+    }
+
+    /// by construction: does the value hold at least one byte string the code can take as a DER blob
+    fn class(self) -> &'static str {
+        match self {
+            X5::Absent => "absent",
+            X5::EmptyArray | X5::IntsArray | X5::Text => "bad",
+            X5::Chain | X5::ChainMixed | X5::Single => "chain",
+        }
+    }
+}
+
+struct VerifySpec {
+    prot: X5,
+    /// the protected header uses the integer label 33 instead of the text label
+    prot_int_label: bool,
+    unprot: X5,
+    /// the unprotected header uses the integer label 33, which the code does not look up there
+    unprot_int_label: bool,
+    mode: &'static str,
+    corrupt_sig: bool,
+    /// the end-entity "certificate" is bytes that are not DER
+    junk_ee: bool,
+}
+
+/// `Verifier::verify_signature` on a hand-assembled COSE_Sign1 (the public API the identity
+/// assertion validators use too).
+fn verify_case(run: &mut Run, ring: &KeyRing, w: &World, c: &Config, v: &VerifySpec, default_ekus: &[String]) {
+    let now = now_epoch();
+    let allow = allow_text(w, &c.allow);
+    let builtin: Vec<String> = default_ekus.to_vec();
+    let mut allowed = builtin.clone();
+    allowed.extend(c.extra_ekus.iter().cloned());
+    // a bare byte string carries the end-entity certificate only
+    let single = |x: X5| x == X5::Single;
+    let chain_hdr = if v.prot.class() == "chain" { v.prot } else { v.unprot };
+    let c_eff = Config { supplied: if single(chain_hdr) { vec![] } else { c.supplied.clone() }, time: None, passthrough: false, ..clone_config(c) };
+    let c = &c_eff;
+    let (fields, sysv, userv) = policy_fields(w, c, &allow, &builtin);
+    let ctp = build_ctp(w, c, &allow);
+    let mut chain: Vec<Vec<u8>> = vec![if v.junk_ee { b"these bytes are not a certificate".to_vec() } else { w.nodes[0].der.clone() }];
+    // the hash the allow list is asked about is that of the bytes actually supplied
+    let fields = if v.junk_ee {
+        fields.replace(&format!("hash={}", b64_sha256(&w.nodes[0].der)), &format!("hash={}", b64_sha256(&chain[0])))
+    } else {
+        fields
+    };
+    chain.extend(c.supplied.iter().map(|i| w.nodes[*i].der.clone()));
+    if c.chain_junk {
+        chain.push(b"junk that is not DER".to_vec());
+    }
+    let key = ring_key(ring, w.ee_kind, 10);
+    let alg = alg_for(key.kind);
+    let cose_alg = match alg {
+        c2pa::SigningAlg::Ps256 => iana::Algorithm::PS256,
+        c2pa::SigningAlg::Es384 => iana::Algorithm::ES384,
+        c2pa::SigningAlg::Es512 => iana::Algorithm::ES512,
+        c2pa::SigningAlg::Ed25519 => iana::Algorithm::EdDSA,
+        _ => iana::Algorithm::ES256,
+    };
+    let data = b"the claim bytes the signature is over".to_vec();
+    let built = guarded(std::panic::AssertUnwindSafe(|| -> Result<Vec<u8>, String> {
+        // only the key matters for raw signing; the signer wants some certificate
+        let signer = c2pa::create_signer::from_keys(pem("CERTIFICATE", &w.nodes[0].der).as_bytes(), &key.pem, alg, None)
+            .map_err(|e| format!("signer: {e:?}"))?;
+        let mut prot = HeaderBuilder::new().algorithm(cose_alg);
+        if let Some(val) = v.prot.value(&chain) {
+            prot = if v.prot_int_label { prot.value(33, val) } else { prot.text_value("x5chain".into(), val) };
+        }
+        let mut unprot = HeaderBuilder::new();
+        if let Some(val) = v.unprot.value(&chain) {
+            unprot = if v.unprot_int_label { unprot.value(33, val) } else { unprot.text_value("x5chain".into(), val) };
+        }
+        let mut sign1 = CoseSign1Builder::new()
+            .protected(prot.build())
+            .unprotected(unprot.build())
+            .payload(data.clone())
+            .try_create_signature(b"", |tbs| signer.sign(tbs).map_err(|e| format!("sign: {e:?}")))?
+            .build();
+        sign1.payload = None;
+        if v.corrupt_sig {
+            let n = sign1.signature.len();
+            sign1.signature[n / 2] ^= 0x40;
+        }
+        sign1.to_tagged_vec().map_err(|e| format!("cose: {e:?}"))
+    }));
+    let cose = match built {
+        Ok(Ok(b)) => b,
+        Ok(Err(e)) => {
+            run.count("verify_unsignable");
+            run.notes.push(format!("verify case skipped: {}", e.chars().take(90).collect::<String>()));
+            run.notes.dedup();
+            return;
+        }
+        Err(p) => {
+            let idx = run.case("C05 verify build-panic".into(), "panic".into());
+            run.fail(idx, "panic", p);
+            return;
+        }
+    };
+    let verifier = match v.mode {
+        "trust" => Verifier::VerifyTrustPolicy(Cow::Owned(ctp)),
+        "profile" => Verifier::VerifyCertificateProfileOnly(Cow::Owned(ctp)),
+        _ => Verifier::IgnoreProfileAndTrustPolicy,
+    };
+    let mut log = StatusTracker::default();
+    let res = guarded(std::panic::AssertUnwindSafe(|| verifier.verify_signature(&cose, &data, b"", None, &mut log).map(|_| ())));
+    let prot_class = v.prot.class();
+    let unprot_class = if v.unprot_int_label { "absent" } else { v.unprot.class() };
+    let facts = if v.junk_ee {
+        "parse=0 ver=0 nb=0 na=0 sig=other pss=none spki=other ecp=none rsaok=0 bits=0 ca=0 dup=0 self=0 iuid=0 suid=0 eku=none exts=-".to_string()
+    } else {
+        w.plan.facts()
+    };
+    let has_org = !w.plan.spec.subject.0.is_empty();
+    let req = format!(
+        "C05 verify prot={prot_class} unprot={unprot_class} {facts} t=- now={now} mode={} sigok={} org={} {fields}",
+        v.mode,
+        !v.corrupt_sig as u8,
+        has_org as u8
+    );
+    let res = match res {
+        Ok(r) => r,
+        Err(p) => {
+            let idx = run.case(req, "panic".into());
+            run.fail(idx, "panic", p);
+            return;
+        }
+    };
+    let mut success = vec![];
+    let mut failure = vec![];
+    for item in log.logged_items() {
+        let code = item.validation_status.as_deref().unwrap_or("-").to_string();
+        match item.kind {
+            LogKind::Success => success.push(code),
+            LogKind::Failure => failure.push(code),
+            LogKind::Informational => {}
+        }
+    }
+    let j = |v: &Vec<String>| if v.is_empty() { "-".to_string() } else { v.join(",") };
+    let result = match &res {
+        Ok(()) => "ok".to_string(),
+        Err(CoseError::RawSignatureValidationError(_)) => "err:Signature".to_string(),
+        Err(e) => {
+            let k = format!("{e:?}");
+            format!("err:{}", k.split('(').next().unwrap_or(""))
+        }
+    };
+    let reply = format!("{result} S={} F={}", j(&success), j(&failure));
+    run.count(&format!("verify_{}", result.replace(':', "_")));
+    run.count(&format!("verify_prot_{prot_class}_unprot_{unprot_class}"));
+    run.nontrivial(req.clone());
+    let idx = run.case(req, reply.clone());
+
+    // property oracle, from the construction alone
+    let has_trusted = success.iter().any(|x| x == "signingCredential.trusted");
+    let has_untrusted = failure.iter().any(|x| x == "signingCredential.untrusted");
+    let chain_present = (prot_class == "chain" && unprot_class != "chain") || (prot_class == "absent" && unprot_class == "chain");
+    if v.mode != "trust" {
+        if has_trusted || has_untrusted {
+            run.fail(idx, "verdict-with-trust-disabled", reply.clone());
+        }
+        return;
+    }
+    if !chain_present {
+        // no signing credential to judge: no verdict may claim trust, and the call must fail
+        if has_trusted || res.is_ok() {
+            run.fail(idx, "trusted-without-credential", format!("no usable certificate chain but {reply}"));
+        }
+        return;
+    }
+    if has_trusted == has_untrusted {
+        run.fail(idx, "verdict-not-exactly-one", format!("trusted={has_trusted} untrusted={has_untrusted}: {reply}"));
+    }
+    let sys_junk = anchor_store(w, &c.sys, c.sys_junk, c.sys_badpem).junk_loaded;
+    let user_junk = anchor_store(w, &c.user, c.user_junk, c.user_badpem).junk_loaded;
+    let broken_input = c.chain_junk || sys_junk || (user_junk && !c.only && !sysv);
+    let chain_trust = !v.junk_ee && eku_accepted(w, &allowed) && (sysv || (!c.only && userv));
+    let expect_trusted = (allow.lists_ee && !v.junk_ee) || (chain_trust && !broken_input);
+    if broken_input && !allow.lists_ee {
+        if has_trusted {
+            run.fail(idx, "trusted-with-undecodable-input", reply.clone());
+        }
+    } else if has_trusted != expect_trusted {
+        run.fail(
+            idx,
+            if has_trusted { "trusted-against-policy" } else { "untrusted-against-policy" },
+            format!("expected trusted={expect_trusted} (allow-listed={} sys={sysv} user={userv} only={}): {reply}", allow.lists_ee, c.only),
+        );
+    }
+    // the call succeeds only for a decodable certificate with an organisation and an intact signature
+    if res.is_ok() != (!v.junk_ee && !v.corrupt_sig && has_org) {
+        run.fail(idx, "verify-result", format!("junk_ee={} corrupt_sig={} org={has_org}: {reply}", v.junk_ee, v.corrupt_sig));
+    }
+}
+
 fn clone_config(c: &Config) -> Config {
     Config {
         passthrough: c.passthrough,
@@ -610,6 +1022,9 @@ fn clone_config(c: &Config) -> Config {
         user: c.user.clone(),
         sys_junk: c.sys_junk,
         user_junk: c.user_junk,
+        sys_badpem: c.sys_badpem,
+        user_badpem: c.user_badpem,
+        eku_noise: c.eku_noise,
         allow: c.allow.clone(),
         only: c.only,
         extra_ekus: c.extra_ekus.clone(),
@@ -663,7 +1078,9 @@ fn random_config(w: &World, rng: &mut Rng, t_ref: i64) -> Config {
             _ => vec![0],                                            // the end-entity certificate itself
         }
     };
-    let allow = match rng.below(10) {
+    let allow = match rng.below(12) {
+        10 => vec![AllowItem::Hash(w.unrelated), AllowItem::BadPem, AllowItem::Pem(0)],
+        11 => vec![AllowItem::Pem(0), AllowItem::BadPem, AllowItem::Hash(0)],
         0 => vec![AllowItem::Pem(0)],
         1 => vec![AllowItem::Comment, AllowItem::Hash(0)],
         2 => vec![AllowItem::Pem(w.unrelated), AllowItem::Hash(w.unrelated)],
@@ -681,6 +1098,9 @@ fn random_config(w: &World, rng: &mut Rng, t_ref: i64) -> Config {
         user: pick_store(rng),
         sys_junk: rng.chance(1, 30),
         user_junk: rng.chance(1, 30),
+        sys_badpem: if rng.chance(1, 12) { Some(rng.below(3) as usize) } else { None },
+        user_badpem: if rng.chance(1, 12) { Some(rng.below(3) as usize) } else { None },
+        eku_noise: rng.chance(1, 4),
         allow,
         only: rng.chance(1, 3),
         extra_ekus: if rng.chance(1, 3) { vec![OID_UNLISTED_EKU.to_string()] } else { vec![] },
@@ -696,7 +1116,7 @@ fn random_config(w: &World, rng: &mut Rng, t_ref: i64) -> Config {
 }
 
 pub fn run(run: &mut Run, rng: &mut Rng) {
-    run.rule = "hierarchies of depth 0-3 (self-signed end entity; root; root+1..2 intermediates) with RSA/EC/Ed25519 keys per level, end-entity EKU accepted/other/absent/configured, one level optionally outside the validity window, optionally signed by an impostor issuer key; chain supplied full/partial/reordered/with foreign certificates; system and user anchors drawn from {none, root, intermediate, end entity, unrelated}, allow list by PEM/hash/near-miss lines, anchors-only, extra EKU configuration, signing time none/inside/outside. Non-trivial: some route to trust exists (allow list, chain to either store, passthrough) or an allow list is configured; every end-to-end case; distinct by request text".into();
+    run.rule = "hierarchies of depth 0-3 (self-signed end entity; root; root+1..2 intermediates) with RSA/EC/Ed25519 keys per level, end-entity EKU accepted/other/absent/configured, one level optionally outside the validity window, optionally signed by an impostor issuer key; chain supplied full/partial/reordered/with foreign certificates; system and user anchors drawn from {none, root, intermediate, end entity, unrelated}, allow list by PEM/hash/near-miss lines, anchors-only, extra EKU configuration, signing time none/inside/outside. Rejected PEM blocks at any position of the allow list / anchor texts, non-OID lines in the EKU configuration; the allow-list loader on its own; hand-assembled COSE_Sign1 structures with the x5chain entry absent / unusable / usable in either header under all three verifier modes. Non-trivial: some route to trust exists (allow list, chain to either store, passthrough) or an allow list is configured; every loader, verify_signature and end-to-end case; distinct by request text".into();
     let default_ekus = default_eku_config();
     run.obligations.insert("default_eku_config_nonempty".into(), !default_ekus.is_empty());
     let mut ring = KeyRing::new();
@@ -718,7 +1138,7 @@ pub fn run(run: &mut Run, rng: &mut Rng) {
                         continue;
                     }
                     for _ in 0..worlds_per_shape {
-                        let shape = Shape { depth, eku, expired_level, wrong_issuer };
+                        let shape = Shape { depth, eku, expired_level, wrong_issuer, no_org: false };
                         let w = build_world(&mut ring, rng, &mut serial, &shape, now);
                         let variants = supplied_variants(&w, rng);
                         for (_, supplied) in &variants {
@@ -741,6 +1161,9 @@ pub fn run(run: &mut Run, rng: &mut Rng) {
                                             user: user.clone(),
                                             sys_junk: false,
                                             user_junk: false,
+                                            sys_badpem: None,
+                                            user_badpem: None,
+                                            eku_noise: false,
                                             allow: vec![],
                                             only,
                                             extra_ekus: if eku == "eku-unlisted" && only { vec![OID_UNLISTED_EKU.into()] } else { vec![] },
@@ -770,6 +1193,7 @@ pub fn run(run: &mut Run, rng: &mut Rng) {
             eku: if r.chance(2, 3) { "" } else { *r.pick(&EKU_VARIANTS) },
             expired_level: if r.chance(1, 4) { r.below(depth as u64 + 1) as usize } else { usize::MAX },
             wrong_issuer: r.chance(1, 10),
+            no_org: false,
         };
         let w = build_world(&mut ring, &mut r, &mut serial, &shape, now);
         let reps = if i % 3 == 0 { 4 } else { 2 };
@@ -789,6 +1213,7 @@ pub fn run(run: &mut Run, rng: &mut Rng) {
             eku: if r.chance(1, 2) { "" } else { *r.pick(&EKU_VARIANTS) },
             expired_level: usize::MAX,
             wrong_issuer: r.chance(1, 12),
+            no_org: false,
         };
         let w = build_world(&mut ring, &mut r, &mut serial, &shape, now);
         let mut c = random_config(&w, &mut r, now);
@@ -804,6 +1229,8 @@ pub fn run(run: &mut Run, rng: &mut Rng) {
                 *it = AllowItem::Comment;
             }
         }
+        // (a rejected PEM block stays: the validator lets it through next to a hash line, and
+        // `Store::from_context` ignores the loader's `Err`, keeping what was loaded before it)
         // …and rejects a list with neither a PEM block nor a base64 line: keep every list valid
         if !c.allow.is_empty() {
             c.allow.push(AllowItem::Hash(w.unrelated));
@@ -820,6 +1247,85 @@ pub fn run(run: &mut Run, rng: &mut Rng) {
         e2e_case(run, &mut ring, &src, &w, &c, true, &default_ekus);
         if i % 3 == 0 {
             e2e_case(run, &mut ring, &src, &w, &c, false, &default_ekus);
+        }
+    }
+
+    // 4. the allow-list loader on its own, rejected PEM blocks at every position
+    let n = if thorough { 600 } else { 120 };
+    for _ in 0..n {
+        let mut r = rng.fork();
+        let shape = Shape { depth: r.below(3) as usize, eku: "", expired_level: usize::MAX, wrong_issuer: false, no_org: false };
+        let w = build_world(&mut ring, &mut r, &mut serial, &shape, now);
+        let k = r.range(1, 5) as usize;
+        let mut items: Vec<AllowItem> = (0..k)
+            .map(|_| {
+                let i = r.below(w.nodes.len() as u64) as usize;
+                match r.below(7) {
+                    0 | 1 => AllowItem::Pem(i),
+                    2 | 3 => AllowItem::Hash(i),
+                    4 => AllowItem::HashInsideBlock(i),
+                    5 => AllowItem::ShortHash(i),
+                    _ => AllowItem::Comment,
+                }
+            })
+            .collect();
+        if r.chance(2, 3) {
+            let at = r.below(items.len() as u64 + 1) as usize;
+            items.insert(at, AllowItem::BadPem);
+        }
+        load_case(run, &w, &items);
+    }
+
+    // 5. Verifier::verify_signature on hand-assembled COSE_Sign1 structures: where the chain is
+    //    (protected / unprotected / both / neither, usable or not), every verifier mode
+    let kinds = [X5::Absent, X5::EmptyArray, X5::IntsArray, X5::Text, X5::Chain, X5::ChainMixed, X5::Single];
+    let mut vcase = 0u64;
+    for prot in kinds {
+        for unprot in kinds {
+            let reps = if thorough { 16 } else { 4 };
+            for _ in 0..reps {
+                vcase += 1;
+                let mut r = rng.fork();
+                let depth = r.below(3) as usize;
+                let shape = Shape {
+                    depth,
+                    eku: if r.chance(3, 4) { "" } else { *r.pick(&EKU_VARIANTS) },
+                    expired_level: usize::MAX,
+                    wrong_issuer: false,
+                    no_org: r.chance(1, 8),
+                };
+                let w = build_world(&mut ring, &mut r, &mut serial, &shape, now);
+                let mut c = random_config(&w, &mut r, now);
+                c.passthrough = false;
+                c.time = None;
+                if vcase % 2 == 0 {
+                    // the plain anchored control
+                    c.sys = vec![depth];
+                    c.user = vec![];
+                    c.supplied = (1..=depth).collect();
+                    c.allow = vec![];
+                    c.sys_junk = false;
+                    c.user_junk = false;
+                    c.sys_badpem = None;
+                    c.user_badpem = None;
+                    c.chain_junk = false;
+                    c.only = false;
+                }
+                let v = VerifySpec {
+                    prot,
+                    prot_int_label: r.chance(1, 2),
+                    unprot,
+                    unprot_int_label: r.chance(1, 5),
+                    mode: match r.below(6) {
+                        0 => "profile",
+                        1 => "ignore",
+                        _ => "trust",
+                    },
+                    corrupt_sig: r.chance(1, 6),
+                    junk_ee: r.chance(1, 10),
+                };
+                verify_case(run, &ring, &w, &c, &v, &default_ekus);
+            }
         }
     }
 }
